@@ -261,9 +261,9 @@ def replaceGo (offset : Int × Int) : Nat → List Char → Res (List Char)
 def replaceCellNames (s : List Char) (offset : Int × Int) : Res (List Char) :=
   replaceGo offset s.length s
 
-/-! ### the `formulas` table and `next_formula` (after D11, D12) -/
+/-! ### the `formulas` table and `next_formula` (after D11, D12 and the map-by-`si` repair) -/
 
-/-- one entry of `formulas: Vec<Option<(String, FormulaMap)>>` with
+/-- one value of `formulas: BTreeMap<usize, (String, FormulaMap)>` with
     `FormulaMap = (Dimensions, (u32, u32))`: master text, declared range, master position -/
 structure Group where
   text : List Char
@@ -271,17 +271,19 @@ structure Group where
   master : Nat × Nat
   deriving Repr, DecidableEq
 
-abbrev Table := List (Option Group)
+/-- the map `si ↦ group` as an association list with at most one entry per key; its size is the
+    number of groups declared so far, whatever the values of `si` -/
+abbrev Table := List (Nat × Group)
 
-/-- `if formulas.len() <= si { formulas.resize(si + 1, None) }; formulas[si] = Some(g)` -/
+/-- `formulas.insert(si, g)` (replaces an earlier group with the same `si`) -/
 def Table.store (t : Table) (si : Nat) (g : Group) : Table :=
-  (if t.length ≤ si then t ++ List.replicate (si + 1 - t.length) none else t).set si (some g)
+  (si, g) :: t.filter (fun p => p.1 != si)
 
-/-- `if let Some(Some(g)) = formulas.get(si)` -/
+/-- `formulas.get(&si)` -/
 def Table.lookup (t : Table) (si : Nat) : Option Group :=
-  match t[si]? with
-  | some (some g) => some g
-  | _ => none
+  match t.find? (fun p => p.1 == si) with
+  | some p => some p.2
+  | none => none
 
 /-- the offset of a member cell: `reference.contains(pos)` then `pos - master` (as `i64`).
     This is the "offset map" of the group, given as a function of the position. -/
